@@ -1,6 +1,8 @@
 import SdxProofs.MonadLemmas
 import SdxProofs.BucketLemmas
 import SdxProofs.TreeInv
+import SdxProofs.ForestLemmas
+import Mathlib.Data.List.InsertIdx
 set_option linter.unusedSectionVars false
 set_option linter.unusedVariables false
 /-!
@@ -35,6 +37,32 @@ theorem Ext.mono {L L' : Nat} {s s' : HState α} (h : Ext L s s') (hl : L ≤ L'
 /-- the cell was created by the node with key `K` or by a node below it -/
 def OwnerOK (K o : NodeKey) : Prop := o.1 = K.1 ∧ K.2 <+: o.2
 
+/-- nodes reachable from `root` through children and sub-nodes -/
+inductive Reach (root : Node α) : Node α → Prop
+  | refl : Reach root root
+  | child (d : NodeData α) (s : List (Option (Node α))) (ch : List (Nat × Node α)) (p : Nat × Node α) :
+      Reach root (.branch d s ch) → p ∈ ch → Reach root p.2
+  | sub (n m : Node α) : Reach root n → some m ∈ n.subnodes → Reach root m
+
+/-- a node whose range may be released: a branch (it was split, so it passed the filter then and entities only
+accumulate), or a leaf that passes the filter now -/
+def Releasable (E : Env α) (c : FCtx α) (m : Node α) : Prop :=
+  m.isLeaf = true → m.overThreshold E c c.ap.supp.lt = true
+
+/-- one range of a cell is the released range of a releasable reachable node, for the same column -/
+def RangeOK (E : Env α) (c : FCtx α) (root : Node α) (col : Nat) (iv : Ival α) : Prop :=
+  ∃ m j, Reach root m ∧ Releasable E c m ∧ j < m.bucketIntervals.length ∧ j < m.data.comb.length ∧
+    iv = m.bucketIntervals.getD j default ∧ m.data.comb.getD j 0 = col
+
+/-- a cell: as many ranges as its owner has columns, each range accounted for -/
+def CellOK (E : Env α) (c : FCtx α) (root : Node α) (ivs : List (Ival α)) (owner : NodeKey) : Prop :=
+  ivs.length = owner.1.length ∧ ∀ pos < ivs.length, RangeOK E c root (owner.1.getD pos 0) (ivs.getD pos default)
+
+/-- every position of a node's own released ranges is accounted for by the node itself -/
+theorem CellOK.self (E : Env α) (c : FCtx α) (root n : Node α) (hr : Reach root n) (hrel : Releasable E c n)
+    (hlen : n.bucketIntervals.length = n.data.comb.length) : CellOK E c root n.bucketIntervals (nodeKey n) := by
+  refine ⟨hlen, fun pos hpos => ⟨n, pos, hr, hrel, hpos, by rw [← hlen]; exact hpos, rfl, rfl⟩⟩
+
 /-- a list of cell ids a node with key `K` may return -/
 def GoodIds (K : NodeKey) (s : HState α) (ids : List Nat) : Prop :=
   ids.Nodup ∧ ∀ id ∈ ids, id < s.cells.size ∧ OwnerOK K (s.cells[id]!.owner)
@@ -44,8 +72,9 @@ theorem GoodIds.mono {K : NodeKey} {L : Nat} {s s' : HState α} {ids : List Nat}
   ⟨h.1, fun id hid => ⟨lt_of_lt_of_le (h.2 id hid).1 he.1, by rw [(he.2 id (h.2 id hid).1).2.1]; exact (h.2 id hid).2⟩⟩
 
 /-- the state invariant: counts are never negative; cached lists are good for their key -/
-def GInv (s : HState α) : Prop :=
-  (∀ id < s.cells.size, 0 ≤ s.cells[id]!.count) ∧ (∀ p ∈ s.cache, GoodIds p.1 s p.2)
+def GInv (E : Env α) (c : FCtx α) (root : Node α) (s : HState α) : Prop :=
+  (∀ id < s.cells.size, 0 ≤ s.cells[id]!.count) ∧ (∀ p ∈ s.cache, GoodIds p.1 s p.2) ∧
+  (∀ id < s.cells.size, CellOK E c root s.cells[id]!.ivs s.cells[id]!.owner)
 
 theorem newCell_run (o : NodeKey) (ivs : List (Ival α)) (cnt : Int) (s : HState α) :
     (HM.newCell o ivs cnt).run s = .ok (s.cells.size, { s with cells := s.cells.push ⟨ivs, cnt, o⟩ }) := rfl
@@ -65,8 +94,9 @@ theorem push_ext (L : Nat) (s : HState α) (b : BCell α) : Ext L s { s with cel
     simp [Array.getElem!_eq_getD, Array.getD, Array.getElem_push, hid, Nat.lt_succ_of_lt hid]
   simp [this]
 
-theorem push_ginv (s : HState α) (b : BCell α) (hb : 0 ≤ b.count) (h : GInv s) : GInv { s with cells := s.cells.push b } := by
-  constructor
+theorem push_ginv (E : Env α) (c : FCtx α) (root : Node α) (s : HState α) (b : BCell α) (hb : 0 ≤ b.count)
+    (hb' : CellOK E c root b.ivs b.owner) (h : GInv E c root s) : GInv E c root { s with cells := s.cells.push b } := by
+  refine ⟨?_, ?_, ?_⟩
   · intro id hid
     simp only [Array.size_push] at hid
     by_cases h1 : id < s.cells.size
@@ -78,8 +108,17 @@ theorem push_ginv (s : HState α) (b : BCell α) (hb : 0 ≤ b.count) (h : GInv 
       have : (s.cells.push b)[s.cells.size]! = b := by simp [Array.getElem!_eq_getD, Array.getD]
       simp only [this]; exact hb
   · intro p hp
-    exact (h.2 p hp).mono (push_ext 0 s b)
-
+    exact (h.2.1 p hp).mono (push_ext 0 s b)
+  · intro id hid
+    simp only [Array.size_push] at hid
+    by_cases h1 : id < s.cells.size
+    · have : (s.cells.push b)[id]! = s.cells[id]! := by
+        simp [Array.getElem!_eq_getD, Array.getD, Array.getElem_push, h1, Nat.lt_succ_of_lt h1]
+      simp only [this]; exact h.2.2 id h1
+    · have h2 : id = s.cells.size := by omega
+      subst h2
+      have : (s.cells.push b)[s.cells.size]! = b := by simp [Array.getElem!_eq_getD, Array.getD]
+      simp only [this]; exact hb'
 
 /-- threading an invariant, a transitive state relation and a relation-monotone result property through `mapM` -/
 theorem mapM_inv {β γ : Type} (f : β → HM α γ) (I : HState α → Prop) (Rel : HState α → HState α → Prop)
@@ -124,11 +163,12 @@ theorem getElem!_push_lt (cells : Array (BCell α)) (b : BCell α) (id : Nat) (h
   simp [Array.getElem!_eq_getD, Array.getD, Array.getElem_push, h, Nat.lt_succ_of_lt h]
 
 /-- a single fresh cell -/
-theorem single_cell_spec (L : Nat) (K : NodeKey) (s : HState α) (ivs : List (Ival α)) (cnt : Int) (hc : 0 ≤ cnt) (h : GInv s) :
-    Ext L s { s with cells := s.cells.push ⟨ivs, cnt, K⟩ } ∧ GInv { s with cells := s.cells.push ⟨ivs, cnt, K⟩ } ∧
+theorem single_cell_spec (E : Env α) (c : FCtx α) (root : Node α) (L : Nat) (K : NodeKey) (s : HState α) (ivs : List (Ival α))
+    (cnt : Int) (hc : 0 ≤ cnt) (hok : CellOK E c root ivs K) (h : GInv E c root s) :
+    Ext L s { s with cells := s.cells.push ⟨ivs, cnt, K⟩ } ∧ GInv E c root { s with cells := s.cells.push ⟨ivs, cnt, K⟩ } ∧
     GoodIds K { s with cells := s.cells.push ⟨ivs, cnt, K⟩ } [s.cells.size] ∧
     sumCounts (s.cells.push ⟨ivs, cnt, K⟩) [s.cells.size] = cnt := by
-  refine ⟨push_ext L s _, push_ginv s _ hc h, ⟨by simp, ?_⟩, ?_⟩
+  refine ⟨push_ext L s _, push_ginv E c root s _ hc hok h, ⟨by simp, ?_⟩, ?_⟩
   · intro id hid
     rw [List.mem_singleton.mp hid]
     simp only [Array.size_push, getElem!_push_size]
@@ -137,44 +177,56 @@ theorem single_cell_spec (L : Nat) (K : NodeKey) (s : HState α) (ivs : List (Iv
 
 
 /-- what every harvesting step guarantees about the state and the ids it returns for node `n` -/
-def Spec (n : Node α) (s : HState α) (ids : List Nat) (s' : HState α) : Prop :=
-  Ext (n.data.comb.length + 1) s s' ∧ GInv s' ∧ GoodIds (nodeKey n) s' ids
+def Spec (E : Env α) (c : FCtx α) (root n : Node α) (s : HState α) (ids : List Nat) (s' : HState α) : Prop :=
+  Ext (n.data.comb.length + 1) s s' ∧ GInv E c root s' ∧ GoodIds (nodeKey n) s' ids
 
 /-- conservation: nothing released, or the counts add up to the node's released count or one less -/
 def Cons (E : Env α) (c : FCtx α) (n : Node α) (ids : List Nat) (s' : HState α) : Prop :=
   ids = [] ∨ ∃ N, n.noisyCount E c = .ok N ∧ (sumCounts s'.cells ids = N ∨ sumCounts s'.cells ids = N - 1)
 
 /-- what `_refine_buckets` guarantees: fresh cells only, adding up to exactly the requested count -/
-def RefineSpec (n : Node α) (count : Int) (s : HState α) (ids : List Nat) (s' : HState α) : Prop :=
-  Ext n.data.comb.length s s' ∧ GInv s' ∧ GoodIds (nodeKey n) s' ids ∧ (∀ id ∈ ids, s.cells.size ≤ id) ∧
+def RefineSpec (E : Env α) (c : FCtx α) (root n : Node α) (count : Int) (s : HState α) (ids : List Nat) (s' : HState α) : Prop :=
+  Ext n.data.comb.length s s' ∧ GInv E c root s' ∧ GoodIds (nodeKey n) s' ids ∧ (∀ id ∈ ids, s.cells.size ≤ id) ∧
     sumCounts s'.cells ids = count
 
-def NodeStmt (E : Env α) (c : FCtx α) (fuel : Nat) : Prop :=
-  ∀ (n : Node α) (s : HState α) (ids : List Nat) (s' : HState α), Shape n → GInv s →
+def NodeStmt (E : Env α) (c : FCtx α) (root : Node α) (fuel : Nat) : Prop :=
+  ∀ (n : Node α) (s : HState α) (ids : List Nat) (s' : HState α), Shape n → Reach root n → GInv E c root s →
     (harvestNode E c fuel n).run s = .ok (ids, s') →
-    Spec n s ids s' ∧ (s.cache.find? (fun p => p.1 == nodeKey n) = none → Cons E c n ids s')
+    Spec E c root n s ids s' ∧ (s.cache.find? (fun p => p.1 == nodeKey n) = none → Cons E c n ids s')
 
-def RefineStmt (E : Env α) (c : FCtx α) (fuel : Nat) : Prop :=
-  ∀ (n : Node α) (count : Int) (s : HState α) (ids : List Nat) (s' : HState α), Shape n → GInv s → 0 ≤ count →
-    (refineBuckets E c fuel n count).run s = .ok (ids, s') → RefineSpec n count s ids s'
+def RefineStmt (E : Env α) (c : FCtx α) (root : Node α) (fuel : Nat) : Prop :=
+  ∀ (n : Node α) (count : Int) (s : HState α) (ids : List Nat) (s' : HState α), Shape n → Reach root n →
+    Releasable E c n → GInv E c root s → 0 ≤ count →
+    (refineBuckets E c fuel n count).run s = .ok (ids, s') → RefineSpec E c root n count s ids s'
 
-def LeafStmt (E : Env α) (c : FCtx α) (fuel : Nat) : Prop :=
-  ∀ (n : Node α) (s : HState α) (ids : List Nat) (s' : HState α), Shape n → GInv s →
-    (harvestLeaf E c fuel n).run s = .ok (ids, s') → Spec n s ids s' ∧ Cons E c n ids s'
+def LeafStmt (E : Env α) (c : FCtx α) (root : Node α) (fuel : Nat) : Prop :=
+  ∀ (n : Node α) (s : HState α) (ids : List Nat) (s' : HState α), Shape n → Reach root n → GInv E c root s →
+    (harvestLeaf E c fuel n).run s = .ok (ids, s') → Spec E c root n s ids s' ∧ Cons E c n ids s'
 
-def BranchStmt (E : Env α) (c : FCtx α) (fuel : Nat) : Prop :=
+def BranchStmt (E : Env α) (c : FCtx α) (root : Node α) (fuel : Nat) : Prop :=
   ∀ (d : NodeData α) (subs : List (Option (Node α))) (ch : List (Nat × Node α)) (s : HState α) (ids : List Nat)
-    (s' : HState α), Shape (.branch d subs ch) → GInv s →
+    (s' : HState α), Shape (.branch d subs ch) → Reach root (.branch d subs ch) → GInv E c root s →
     (harvestBranch E c fuel (.branch d subs ch) ch).run s = .ok (ids, s') →
-    Spec (.branch d subs ch) s ids s' ∧ Cons E c (.branch d subs ch) ids s'
+    Spec E c root (.branch d subs ch) s ids s' ∧ Cons E c (.branch d subs ch) ids s'
 
-theorem Spec.nil (n : Node α) (s : HState α) (h : GInv s) : Spec n s [] s :=
+theorem Spec.nil (E : Env α) (c : FCtx α) (root n : Node α) (s : HState α) (h : GInv E c root s) : Spec E c root n s [] s :=
   ⟨Ext.refl _ _, h, ⟨List.nodup_nil, fun _ h => by simp at h⟩⟩
 
+theorem Shape.lens {n : Node α} (h : Shape n) :
+    n.data.snapped.length = n.data.comb.length ∧ n.data.actual.length = n.data.comb.length ∧
+    (2 ≤ n.data.comb.length → n.subnodes.length = n.data.comb.length) := by
+  cases h with
+  | leaf _ _ _ hS _ _ => exact hS
+  | branch _ _ _ hS _ _ _ _ _ => exact hS
+
+theorem bucketIntervals_length {n : Node α} (h : Shape n) : n.bucketIntervals.length = n.data.comb.length := by
+  obtain ⟨h1, h2, _⟩ := h.lens
+  simp [Node.bucketIntervals, h1, h2]
+
 /-- `_harvest_leaf`, given `_refine_buckets` -/
-theorem leaf_of_refine (E : Env α) (c : FCtx α) (hlt : 0 ≤ c.ap.supp.lt) (fuel : Nat) (hR : RefineStmt E c fuel) :
-    LeafStmt E c fuel := by
-  intro n s ids s' hsh hG h0
+theorem leaf_of_refine (E : Env α) (c : FCtx α) (hlt : 0 ≤ c.ap.supp.lt) (root : Node α) (fuel : Nat)
+    (hR : RefineStmt E c root fuel) : LeafStmt E c root fuel := by
+  intro n s ids s' hsh hreach hG h0
   unfold harvestLeaf at h0
   by_cases hover : n.overThreshold E c c.ap.supp.lt = true
   · rw [if_pos hover] at h0
@@ -182,6 +234,7 @@ theorem leaf_of_refine (E : Env α) (c : FCtx α) (hlt : 0 ≤ c.ap.supp.lt) (fu
     clear h0
     obtain ⟨hN, rfl⟩ := liftEx_run _ _ _ _ h1
     have hN0 : 0 ≤ N := le_trans hlt (noisyCount_ge E c n N hN)
+    have hrel : Releasable E c n := fun _ => hover
     by_cases hs : (n.isSing || n.dims == 1) = true
     · rw [if_pos hs] at h
       obtain ⟨id, s2, h2, h3⟩ := StateT_bind_ok _ _ _ _ _ h
@@ -190,15 +243,15 @@ theorem leaf_of_refine (E : Env α) (c : FCtx α) (hlt : 0 ≤ c.ap.supp.lt) (fu
       simp only [Except.ok.injEq, Prod.mk.injEq] at h2
       obtain ⟨rfl, rfl⟩ := h2
       obtain ⟨rfl, rfl⟩ := StateT_pure_ok _ _ _ _ h3
-      obtain ⟨e1, e2, e3, e4⟩ := single_cell_spec (n.data.comb.length + 1) (nodeKey n) s n.bucketIntervals N hN0 hG
+      obtain ⟨e1, e2, e3, e4⟩ := single_cell_spec E c root (n.data.comb.length + 1) (nodeKey n) s n.bucketIntervals N hN0
+        (CellOK.self E c root n hreach hrel (bucketIntervals_length hsh)) hG
       exact ⟨⟨e1, e2, e3⟩, Or.inr ⟨N, hN, Or.inl e4⟩⟩
     · rw [if_neg hs] at h
-      obtain ⟨e1, e2, e3, _, hsum⟩ := hR n N s ids s' hsh hG hN0 h
+      obtain ⟨e1, e2, e3, _, hsum⟩ := hR n N s ids s' hsh hreach hrel hG hN0 h
       exact ⟨⟨e1.mono (Nat.le_succ _), e2, e3⟩, Or.inr ⟨N, hN, Or.inl hsum⟩⟩
   · rw [if_neg hover] at h0
     obtain ⟨rfl, rfl⟩ := StateT_pure_ok _ _ _ _ h0
-    exact ⟨Spec.nil n s hG, Or.inl rfl⟩
-
+    exact ⟨Spec.nil E c root n s hG, Or.inl rfl⟩
 
 theorem randint_run (hi : Int) (s s' : HState α) (v : Nat) (h : (HM.randint (α := α) hi).run s = .ok (v, s')) :
     s'.cells = s.cells ∧ s'.cache = s.cache := by
@@ -239,14 +292,28 @@ theorem mapM_mapM_cell_state (idss : List (List Nat)) (s s' : HState α) (r : Li
   exact this.2.1
 
 
+theorem lookupRun_mem {β : Type} : ∀ (l : List (β × Int)) (i : Nat) (x : β), lookupRun l i = some x → ∃ c, (x, c) ∈ l := by
+  intro l
+  induction l with
+  | nil => intro i x h; simp [lookupRun] at h
+  | cons p rest ih =>
+    intro i x h
+    obtain ⟨y, c⟩ := p
+    unfold lookupRun at h
+    split_ifs at h
+    · simp only [Option.some.injEq] at h; subst h; exact ⟨c, by simp⟩
+    · obtain ⟨c', hc'⟩ := ih _ x h
+      exact ⟨c', by simp [hc']⟩
+
 /-- a run of allocations: every step appends exactly one cell of count 1 owned by `K` and returns its id -/
-theorem mapM_alloc {β : Type} (f : β → HM α Nat) (K : NodeKey)
+theorem mapM_alloc {β : Type} (f : β → HM α Nat) (K : NodeKey) (P : List (Ival α) → Prop)
     (hstep : ∀ b s id s', (f b).run s = .ok (id, s') → id = s.cells.size ∧ s'.cache = s.cache ∧
-      ∃ ivs, s'.cells = s.cells.push ⟨ivs, 1, K⟩) :
+      ∃ ivs, P ivs ∧ s'.cells = s.cells.push ⟨ivs, 1, K⟩) :
     ∀ (l : List β) (s : HState α) (ids : List Nat) (s' : HState α), (l.mapM f).run s = .ok (ids, s') →
       ids = List.range' s.cells.size l.length ∧ s'.cells.size = s.cells.size + l.length ∧ s'.cache = s.cache ∧
       (∀ id < s.cells.size, s'.cells[id]! = s.cells[id]!) ∧
-      (∀ id, s.cells.size ≤ id → id < s'.cells.size → s'.cells[id]!.count = 1 ∧ s'.cells[id]!.owner = K) := by
+      (∀ id, s.cells.size ≤ id → id < s'.cells.size → s'.cells[id]!.count = 1 ∧ s'.cells[id]!.owner = K ∧
+        P s'.cells[id]!.ivs) := by
   intro l
   induction l with
   | nil =>
@@ -260,7 +327,7 @@ theorem mapM_alloc {β : Type} (f : β → HM α Nat) (K : NodeKey)
     obtain ⟨y, s1, h1, h2⟩ := StateT_bind_ok _ _ _ _ _ h
     obtain ⟨ys, s2, h3, h4⟩ := StateT_bind_ok _ _ _ _ _ h2
     obtain ⟨rfl, rfl⟩ := StateT_pure_ok _ _ _ _ h4
-    obtain ⟨rfl, hc1, ivs, hcells⟩ := hstep a s y s1 h1
+    obtain ⟨rfl, hc1, ivs, hP, hcells⟩ := hstep a s y s1 h1
     obtain ⟨rfl, hsz, hc2, hold, hnew⟩ := ih s1 ys s2 h3
     have hs1 : s1.cells.size = s.cells.size + 1 := by rw [hcells]; simp
     refine ⟨?_, by rw [hsz, hs1]; simp; omega, hc2.trans hc1, ?_, ?_⟩
@@ -271,7 +338,7 @@ theorem mapM_alloc {β : Type} (f : β → HM α Nat) (K : NodeKey)
       by_cases he : id = s.cells.size
       · subst he
         rw [hold _ (by rw [hs1]; omega), hcells, getElem!_push_size]
-        exact ⟨rfl, rfl⟩
+        exact ⟨rfl, rfl, hP⟩
       · exact hnew id (by rw [hs1]; omega) h2'
 
 theorem sum_map_const_one (l : List Nat) (g : Nat → Int) (h : ∀ x ∈ l, g x = 1) : (l.map g).sum = l.length := by
@@ -283,22 +350,30 @@ theorem sum_map_const_one (l : List Nat) (g : Nat → Int) (h : ∀ x ∈ l, g x
     push_cast; ring
 
 /-- `_match_subintervals`: `count` fresh cells of count 1 owned by the refined node -/
-theorem matchSub_spec (L : Nat) (K : NodeKey) (count : Int) (hc : 0 ≤ count) (perDim : List (List (Ival α × Int)))
-    (perSub : List (List (List (Ival α) × Int))) (s : HState α) (ids : List Nat) (s' : HState α) (hG : GInv s)
+theorem matchSub_spec (E : Env α) (c : FCtx α) (root : Node α) (L : Nat) (K : NodeKey) (count : Int) (hc : 0 ≤ count)
+    (perDim : List (List (Ival α × Int))) (perSub : List (List (List (Ival α) × Int)))
+    (hcell : ∀ (mc : Nat) (sivs : List (Ival α)) (div : Ival α),
+      (∃ cnt, (sivs, cnt) ∈ perSub.getD (mc % perDim.length) []) →
+      (∃ cnt, (div, cnt) ∈ perDim.getD (perDim.length - mc % perDim.length - 1) []) →
+      CellOK E c root (sivs.take (perDim.length - mc % perDim.length - 1) ++ [div] ++
+        sivs.drop (perDim.length - mc % perDim.length - 1)) K)
+    (s : HState α) (ids : List Nat) (s' : HState α) (hG : GInv E c root s)
     (h : (matchSubintervals K count perDim perSub).run s = .ok (ids, s')) :
-    Ext L s s' ∧ GInv s' ∧ GoodIds K s' ids ∧ (∀ id ∈ ids, s.cells.size ≤ id) ∧ sumCounts s'.cells ids = count := by
+    Ext L s s' ∧ GInv E c root s' ∧ GoodIds K s' ids ∧ (∀ id ∈ ids, s.cells.size ≤ id) ∧ sumCounts s'.cells ids = count := by
   unfold matchSubintervals at h
-  obtain ⟨hids, hsz, hcache, hold, hnew⟩ := mapM_alloc _ K (by
+  obtain ⟨hids, hsz, hcache, hold, hnew⟩ := mapM_alloc _ K (fun ivs => CellOK E c root ivs K) (by
     intro b s id s' hr
     obtain ⟨a, s1, h1, hr⟩ := StateT_bind_ok _ _ _ _ _ hr
     obtain ⟨b', s2, h2, hr⟩ := StateT_bind_ok _ _ _ _ _ hr
     obtain ⟨c1, c2⟩ := randint_run _ _ _ _ h1
     obtain ⟨c3, c4⟩ := randint_run _ _ _ _ h2
     split at hr
-    · rw [newCell_run] at hr
+    · rename_i sivs div hl1 hl2
+      rw [newCell_run] at hr
       simp only [Except.ok.injEq, Prod.mk.injEq] at hr
       obtain ⟨rfl, rfl⟩ := hr
-      exact ⟨by rw [c3, c1], by simp [c4, c2], _, by rw [c3, c1]⟩
+      exact ⟨by rw [c3, c1], by simp [c4, c2], _, hcell b sivs div (lookupRun_mem _ _ _ hl1) (lookupRun_mem _ _ _ hl2),
+        by rw [c3, c1]⟩
     · simp [throw, throwThe, MonadExceptOf.throw, StateT.lift, StateT.run, bind, Except.bind] at hr) _ s ids s' h
   simp only [List.length_range] at hids hsz
   have hext : Ext L s s' := by
@@ -308,23 +383,166 @@ theorem matchSub_spec (L : Nat) (K : NodeKey) (count : Int) (hc : 0 ≤ count) (
     intro id hid
     rw [hids, List.mem_range'_1] at hid
     omega
-  refine ⟨hext, ⟨?_, ?_⟩, ⟨?_, ?_⟩, fun id hid => (hmem id hid).1, ?_⟩
+  refine ⟨hext, ⟨?_, ?_, ?_⟩, ⟨?_, ?_⟩, fun id hid => (hmem id hid).1, ?_⟩
   · intro id hid
     by_cases h1 : id < s.cells.size
     · rw [hold id h1]; exact hG.1 id h1
     · rw [(hnew id (by omega) hid).1]; norm_num
   · intro p hp
     rw [hcache] at hp
-    exact (hG.2 p hp).mono hext
+    exact (hG.2.1 p hp).mono hext
+  · intro id hid
+    by_cases h1 : id < s.cells.size
+    · rw [hold id h1]; exact hG.2.2 id h1
+    · obtain ⟨_, ho, hP⟩ := hnew id (by omega) hid
+      rw [ho]; exact hP
   · rw [hids]; exact List.nodup_range'
   · intro id hid
     obtain ⟨h1, h2⟩ := hmem id hid
-    exact ⟨h2, by rw [(hnew id h1 h2).2]; exact OwnerOK.refl K⟩
+    exact ⟨h2, by rw [(hnew id h1 h2).2.1]; exact OwnerOK.refl K⟩
   · unfold sumCounts
     rw [sum_map_const_one ids _ (fun id hid => (hnew id (hmem id hid).1 (hmem id hid).2).1), hids]
     simp only [List.length_range']
     omega
 
+theorem mapM_cell_val (ids : List Nat) (s s' : HState α) (r : List (BCell α))
+    (h : (ids.mapM (HM.cell (α := α))).run s = .ok (r, s')) : r = ids.map (fun id => s.cells[id]!) := by
+  induction ids generalizing r s' with
+  | nil =>
+    simp only [List.mapM_nil] at h
+    obtain ⟨rfl, rfl⟩ := StateT_pure_ok _ _ _ _ h
+    rfl
+  | cons a l ih =>
+    rw [List.mapM_cons] at h
+    obtain ⟨y, s1, h1, h2⟩ := StateT_bind_ok _ _ _ _ _ h
+    obtain ⟨ys, s2, h3, h4⟩ := StateT_bind_ok _ _ _ _ _ h2
+    obtain ⟨rfl, rfl⟩ := StateT_pure_ok _ _ _ _ h4
+    rw [cell_run] at h1
+    simp only [Except.ok.injEq, Prod.mk.injEq] at h1
+    obtain ⟨rfl, rfl⟩ := h1
+    rw [ih _ _ h3]
+    rfl
+
+theorem mapM_mapM_cell_val (idss : List (List Nat)) (s s' : HState α) (r : List (List (BCell α)))
+    (h : (idss.mapM (fun (ids : List Nat) => ids.mapM (HM.cell (α := α)))).run s = .ok (r, s')) :
+    r = idss.map (fun ids => ids.map (fun id => s.cells[id]!)) := by
+  induction idss generalizing r s' with
+  | nil =>
+    simp only [List.mapM_nil] at h
+    obtain ⟨rfl, rfl⟩ := StateT_pure_ok _ _ _ _ h
+    rfl
+  | cons a l ih =>
+    rw [List.mapM_cons] at h
+    obtain ⟨y, s1, h1, h2⟩ := StateT_bind_ok _ _ _ _ _ h
+    obtain ⟨ys, s2, h3, h4⟩ := StateT_bind_ok _ _ _ _ _ h2
+    obtain ⟨rfl, rfl⟩ := StateT_pure_ok _ _ _ _ h4
+    have e1 := mapM_cell_val a s s1 y h1
+    have e2 := mapM_cell_state a s s1 y h1
+    subst e2
+    rw [ih _ _ h3, e1]
+    rfl
+
+/-- entries of `_get_per_subnode_intervals_lists` are the range lists of buckets of that sub-node, of full width -/
+theorem perSub_mem (smallest : List (Ival α)) (subb : List (List (BCell α))) (si : Nat) (sivs : List (Ival α)) (cnt : Int)
+    (h : (sivs, cnt) ∈ (perSubnodeRuns smallest subb).getD si []) :
+    si < subb.length ∧ ∃ b ∈ subb.getD si [], b.ivs = sivs ∧ b.ivs.length = subb.length - 1 := by
+  unfold perSubnodeRuns at h
+  simp only at h
+  rw [List.getD_eq_getElem?_getD, List.getElem?_map] at h
+  cases hz : (List.zip (genCombinations (subb.length - 1) subb.length) subb)[si]? with
+  | none => rw [hz] at h; simp at h
+  | some pr =>
+    rw [hz] at h
+    obtain ⟨comb, bs⟩ := pr
+    simp only [Option.map_some, Option.getD_some, List.mem_filterMap] at h
+    obtain ⟨b, hb, hcond⟩ := h
+    rw [List.getElem?_zip_eq_some] at hz
+    obtain ⟨_, hz2⟩ := hz
+    have hsi : si < subb.length := (List.getElem?_eq_some_iff.mp hz2).1
+    refine ⟨hsi, b, ?_, ?_⟩
+    · rw [List.getD_eq_getElem?_getD, hz2]; exact hb
+    · split_ifs at hcond with hc
+      simp only [Option.some.injEq, Prod.mk.injEq] at hcond
+      simp only [Bool.and_eq_true, beq_iff_eq] at hc
+      exact ⟨hcond.1, hc.2⟩
+
+/-- entries of `_get_per_dimension_interval_lists` for dimension `d` are ranges, at the position of `d`, of buckets of a
+sub-node whose combination contains `d` -/
+theorem perDim_mem (smallest : List (Ival α)) (subb : List (List (BCell α))) (d : Nat) (div : Ival α) (cnt : Int)
+    (h : (div, cnt) ∈ (perDimensionRuns smallest subb).getD d []) :
+    ∃ (i : Nat) (comb : List Nat) (bs : List (BCell α)) (pos : Nat) (b : BCell α),
+      (genCombinations (subb.length - 1) subb.length)[i]? = some comb ∧ subb[i]? = some bs ∧
+      comb.idxOf? d = some pos ∧ b ∈ bs ∧ div = b.ivs.getD pos default := by
+  unfold perDimensionRuns at h
+  simp only at h
+  rw [List.getD_eq_getElem?_getD, List.getElem?_map] at h
+  by_cases hd : d < subb.length
+  · rw [List.getElem?_range hd] at h
+    simp only [Option.map_some, Option.getD_some, List.mem_flatten, List.mem_map] at h
+    obtain ⟨l, ⟨pr, hpr, rfl⟩, hmem⟩ := h
+    obtain ⟨comb, bs⟩ := pr
+    obtain ⟨i, hi, hget⟩ := List.mem_iff_getElem.mp hpr
+    have hz : (List.zip (genCombinations (subb.length - 1) subb.length) subb)[i]? = some (comb, bs) := by
+      rw [List.getElem?_eq_getElem hi, hget]
+    rw [List.getElem?_zip_eq_some] at hz
+    simp only at hmem
+    cases hidx : comb.idxOf? d with
+    | none => rw [hidx] at hmem; simp at hmem
+    | some pos =>
+      rw [hidx] at hmem
+      simp only [List.mem_filterMap] at hmem
+      obtain ⟨b, hb, hcond⟩ := hmem
+      split_ifs at hcond
+      simp only [Option.some.injEq, Prod.mk.injEq] at hcond
+      exact ⟨i, comb, bs, pos, b, hz.1, hz.2, hidx, hb, hcond.1.symm⟩
+  · rw [List.getElem?_eq_none (by simp; omega)] at h
+    simp at h
+
+theorem combos_mem_subset : ∀ (l : List Nat) (k : Nat) (cb : List Nat), cb ∈ combos k l → ∀ x ∈ cb, x ∈ l := by
+  intro l
+  induction l with
+  | nil =>
+    intro k cb h x hx
+    cases k with
+    | zero => simp [combos] at h; subst h; simp at hx
+    | succ k => simp [combos] at h
+  | cons a l ih =>
+    intro k cb h x hx
+    cases k with
+    | zero => simp [combos] at h; subst h; simp at hx
+    | succ k =>
+      simp only [combos, List.mem_append, List.mem_map] at h
+      rcases h with ⟨cb', hcb', rfl⟩ | h
+      · rcases List.mem_cons.mp hx with rfl | hx
+        · simp
+        · exact List.mem_cons_of_mem _ (ih k cb' hcb' x hx)
+      · exact List.mem_cons_of_mem _ (ih (k + 1) cb h x hx)
+
+theorem genCombinations_mem_lt (k n : Nat) (cb : List Nat) (h : cb ∈ genCombinations k n) : ∀ x ∈ cb, x < n := by
+  unfold genCombinations at h
+  split_ifs at h
+  · simp at h
+  · intro x hx
+    exact List.mem_range.mp (combos_mem_subset _ _ cb h x hx)
+
+theorem getD_eraseIdx {β : Type} (l : List β) (k pos : Nat) (dflt : β) :
+    (l.eraseIdx k).getD pos dflt = if pos < k then l.getD pos dflt else l.getD (pos + 1) dflt := by
+  simp only [List.getD_eq_getElem?_getD, List.getElem?_eraseIdx]
+  split_ifs <;> rfl
+
+theorem getD_insert_mid {β : Type} (l : List β) (x : β) (di pos : Nat) (dflt : β) (hdi : di ≤ l.length) :
+    (l.take di ++ [x] ++ l.drop di).getD pos dflt =
+      if pos < di then l.getD pos dflt else if pos = di then x else l.getD (pos - 1) dflt := by
+  simp only [List.getD_eq_getElem?_getD]
+  have ht : (l.take di).length = di := by simp [hdi]
+  split_ifs with h1 h2
+  · rw [List.append_assoc, List.getElem?_append_left (by rw [ht]; exact h1), List.getElem?_take_of_lt h1]
+  · subst h2
+    rw [List.append_assoc, List.getElem?_append_right (by rw [ht]), ht]
+    simp
+  · rw [List.getElem?_append_right (by simp [ht]; omega)]
+    simp only [List.length_append, ht, List.length_singleton, List.getElem?_drop]
+    congr 2; omega
 
 /-- sub-nodes of a well-shaped node are well-shaped and have fewer columns -/
 theorem Shape.subnode {n s : Node α} (h : Shape n) (hm : some s ∈ n.subnodes) :
@@ -340,30 +558,171 @@ theorem Shape.subnode {n s : Node α} (h : Shape n) (hm : some s ∈ n.subnodes)
     exact ⟨hS k s hk', by show s.data.comb.length + 1 ≤ d.comb.length; rw [hc, List.length_eraseIdx]; split_ifs <;> omega⟩
 
 /-- the single-cell fallback of `_refine_buckets` -/
-theorem fallback_spec (n : Node α) (count : Int) (hc : 0 ≤ count) (s : HState α) (ids : List Nat) (s' : HState α) (hG : GInv s)
+theorem fallback_spec (E : Env α) (c : FCtx α) (root n : Node α) (count : Int) (hc : 0 ≤ count)
+    (hok : CellOK E c root n.bucketIntervals (nodeKey n)) (s : HState α) (ids : List Nat) (s' : HState α) (hG : GInv E c root s)
     (h : (do let id ← HM.newCell (α := α) (nodeKey n) n.bucketIntervals count; pure [id] : HM α (List Nat)).run s = .ok (ids, s')) :
-    Ext n.data.comb.length s s' ∧ GInv s' ∧ GoodIds (nodeKey n) s' ids ∧ (∀ id ∈ ids, s.cells.size ≤ id) ∧
+    Ext n.data.comb.length s s' ∧ GInv E c root s' ∧ GoodIds (nodeKey n) s' ids ∧ (∀ id ∈ ids, s.cells.size ≤ id) ∧
       sumCounts s'.cells ids = count := by
   obtain ⟨id, s2, h2, h3⟩ := StateT_bind_ok _ _ _ _ _ h
   rw [newCell_run] at h2
   simp only [Except.ok.injEq, Prod.mk.injEq] at h2
   obtain ⟨rfl, rfl⟩ := h2
   obtain ⟨rfl, rfl⟩ := StateT_pure_ok _ _ _ _ h3
-  obtain ⟨e1, e2, e3, e4⟩ := single_cell_spec n.data.comb.length (nodeKey n) s n.bucketIntervals count hc hG
+  obtain ⟨e1, e2, e3, e4⟩ := single_cell_spec E c root n.data.comb.length (nodeKey n) s n.bucketIntervals count hc hok hG
   exact ⟨e1, e2, e3, fun id hid => by rw [List.mem_singleton.mp hid], e4⟩
 
+theorem bucketIntervals_getD {n : Node α} (h : Shape n) (j : Nat) (hj : j < n.data.comb.length) :
+    n.bucketIntervals.getD j default =
+      if (n.data.actual.getD j default).isSing then n.data.actual.getD j default else n.data.snapped.getD j default := by
+  obtain ⟨h1, h2, _⟩ := h.lens
+  have hjs : j < n.data.snapped.length := by rw [h1]; exact hj
+  have hja : j < n.data.actual.length := by rw [h2]; exact hj
+  simp [Node.bucketIntervals, List.getD_eq_getElem?_getD, List.getElem?_zipWith, hjs, hja]
+
+theorem genCombinations_small (d : Nat) (hd : d < 2) : genCombinations (d - 1) d = [] := by
+  unfold genCombinations
+  have : d - 1 = 0 := by omega
+  simp [this]
+
+/-- the columns of the `k`-th sub-combination of a node are the node's columns without column `dims-1-k` -/
+theorem subcols_eq (comb : List Nat) (k : Nat) (h2 : 2 ≤ comb.length) (hk : k < comb.length) (cb : List Nat)
+    (hcb : (genCombinations (comb.length - 1) comb.length)[k]? = some cb) :
+    cb.map (fun i => comb.getD i 0) = comb.eraseIdx (comb.length - 1 - k) := by
+  rw [genCombinations_pred comb.length h2] at hcb
+  rw [List.getElem?_map, List.getElem?_range hk] at hcb
+  simp only [Option.map_some, Option.some.injEq] at hcb
+  rw [← hcb, ← List.eraseIdx_map]
+  congr 1
+  apply List.ext_getElem
+  · simp
+  · intro i h1 _
+    simp only [List.length_map, List.length_range] at h1
+    simp [List.getD_eq_getElem?_getD, h1]
+
+/-- a bucket assembled by `_match_subintervals` from a sub-node bucket and a per-dimension range is accounted for,
+column by column -/
+theorem matchCell_ok (E : Env α) (c : FCtx α) (root n : Node α) (hsh : Shape n) (s1 : HState α) (hG1 : GInv E c root s1)
+    (subIds : List (List Nat))
+    (hF : List.Forall₂ (fun (pr : Option (Node α) × List Nat) (y : List Nat) =>
+      ∀ id ∈ y, id < s1.cells.size ∧ (s1.cells[id]!).owner.1 = pr.2.map (fun i => n.data.comb.getD i 0))
+      (List.zip n.subnodes (genCombinations (n.dims - 1) n.dims)) subIds)
+    (subb : List (List (BCell α))) (hsubb : subb = subIds.map (fun ids => ids.map (fun id => s1.cells[id]!)))
+    (sm : List (Ival α)) (mc : Nat) (sivs : List (Ival α)) (div : Ival α)
+    (hs : ∃ cnt, (sivs, cnt) ∈ (perSubnodeRuns sm subb).getD (mc % (perDimensionRuns sm subb).length) [])
+    (hd : ∃ cnt, (div, cnt) ∈ (perDimensionRuns sm subb).getD
+      ((perDimensionRuns sm subb).length - mc % (perDimensionRuns sm subb).length - 1) []) :
+    CellOK E c root (sivs.take ((perDimensionRuns sm subb).length - mc % (perDimensionRuns sm subb).length - 1) ++ [div] ++
+      sivs.drop ((perDimensionRuns sm subb).length - mc % (perDimensionRuns sm subb).length - 1)) (nodeKey n) := by
+  obtain ⟨c1, hs⟩ := hs
+  obtain ⟨c2, hd⟩ := hd
+  have hD : (perDimensionRuns sm subb).length = subb.length := by simp [perDimensionRuns]
+  rw [hD] at hs hd ⊢
+  obtain ⟨hlS, hlA, hlSub⟩ := hsh.lens
+  have hdims : n.dims = n.data.comb.length := rfl
+  obtain ⟨hsi, b, hb, hbiv, hblen⟩ := perSub_mem sm subb _ sivs c1 hs
+  have hlen1 : subb.length = subIds.length := by rw [hsubb]; simp
+  have hlen2 := hF.length_eq
+  have h2 : 2 ≤ n.data.comb.length := by
+    by_contra hlt2
+    rw [hdims, genCombinations_small _ (by omega)] at hlen2
+    simp at hlen2
+    omega
+  have hcl : (genCombinations (n.data.comb.length - 1) n.data.comb.length).length = n.data.comb.length := by
+    rw [genCombinations_pred _ h2]; simp
+  have hDn : subb.length = n.data.comb.length := by
+    rw [hlen1, ← hlen2, List.length_zip, hlSub h2, hdims, hcl]; simp
+  rw [hDn] at hs hd hsi hblen hb ⊢
+  set D := n.data.comb.length with hDdef
+  set si := mc % D with hsidef
+  have hsilt : si < D := hsi
+  -- facts about any bucket of sub-list `i`
+  have cellFacts : ∀ (i : Nat) (bs : List (BCell α)) (b : BCell α), subb[i]? = some bs → b ∈ bs →
+      CellOK E c root b.ivs b.owner ∧ i < D ∧ b.owner.1 = n.data.comb.eraseIdx (D - 1 - i) ∧
+      ∃ cb, (genCombinations (D - 1) D)[i]? = some cb ∧ b.owner.1 = cb.map (fun j => n.data.comb.getD j 0) := by
+    intro i bs b hbs hbm
+    have hi : i < subb.length := (List.getElem?_eq_some_iff.mp hbs).1
+    have hiD : i < D := by rw [← hDn]; exact hi
+    rw [hsubb, List.getElem?_map] at hbs
+    have hiI : i < subIds.length := by rw [← hlen1]; exact hi
+    rw [List.getElem?_eq_getElem hiI] at hbs
+    simp only [Option.map_some, Option.some.injEq] at hbs
+    rw [← hbs] at hbm
+    obtain ⟨id, hid, rfl⟩ := List.mem_map.mp hbm
+    have hiZ : i < (List.zip n.subnodes (genCombinations (n.dims - 1) n.dims)).length := by rw [hlen2]; exact hiI
+    have hq := List.forall₂_iff_get.mp hF |>.2 i hiZ hiI
+    simp only [List.get_eq_getElem] at hq
+    obtain ⟨hv, ho⟩ := hq id hid
+    have hz : (List.zip n.subnodes (genCombinations (n.dims - 1) n.dims))[i]? =
+        some ((List.zip n.subnodes (genCombinations (n.dims - 1) n.dims))[i]) := List.getElem?_eq_getElem hiZ
+    rw [List.getElem?_zip_eq_some] at hz
+    have hcb : (genCombinations (D - 1) D)[i]? = some ((List.zip n.subnodes (genCombinations (n.dims - 1) n.dims))[i]).2 := hz.2
+    refine ⟨hG1.2.2 id hv, hiD, ?_, _, hcb, ho⟩
+    rw [ho]
+    exact subcols_eq n.data.comb i h2 hiD _ hcb
+  -- the sub-node bucket
+  have hbsi : subb[si]? = some (subb.getD si []) := by
+    rw [List.getD_eq_getElem?_getD, List.getElem?_eq_getElem (by rw [hDn]; exact hsilt)]; simp
+  obtain ⟨hbok, _, hbown, _⟩ := cellFacts si _ b hbsi hb
+  -- the per-dimension range
+  obtain ⟨i, cbi, bs, pos, b', hcbi, hbsI, hidx, hb'm, hdiv⟩ := perDim_mem sm subb _ div c2 hd
+  rw [hDn] at hcbi
+  obtain ⟨hb'ok, hiD, _, cb', hcb', hb'own⟩ := cellFacts i bs b' hbsI hb'm
+  have hcbeq : cb' = cbi := by rw [hcbi] at hcb'; exact (Option.some.inj hcb').symm
+  subst hcbeq
+  obtain ⟨hposl, hposv, _⟩ := List.idxOf?_eq_some_iff.mp hidx
+  set di := D - si - 1 with hdidef
+  have hdile : di ≤ sivs.length := by rw [← hbiv, hblen]; omega
+  have hsl : sivs.length = D - 1 := by rw [← hbiv, hblen]
+  have hdivok : RangeOK E c root (n.data.comb.getD di 0) div := by
+    have hpl : pos < b'.ivs.length := by rw [hb'ok.1, hb'own]; simpa using hposl
+    have := hb'ok.2 pos hpl
+    rw [hb'own] at this
+    rw [hdiv]
+    have e : (cb'.map (fun j => n.data.comb.getD j 0)).getD pos 0 = n.data.comb.getD di 0 := by
+      simp [List.getD_eq_getElem?_getD, hposl, hposv]
+    rw [e] at this
+    exact this
+  refine ⟨?_, ?_⟩
+  · simp only [List.length_append, List.length_take, List.length_drop, List.length_singleton, nodeKey]
+    omega
+  · intro p hp
+    simp only [List.length_append, List.length_take, List.length_drop, List.length_singleton] at hp
+    rw [getD_insert_mid sivs div di p default hdile]
+    simp only [nodeKey]
+    split_ifs with hp1 hp2
+    · have := hbok.2 p (by rw [hbiv, hsl]; omega)
+      rw [hbown, getD_eraseIdx, hbiv] at this
+      have hsd : D - 1 - si = di := by omega
+      rw [hsd, if_pos hp1] at this
+      exact this
+    · rw [hp2]; exact hdivok
+    · have := hbok.2 (p - 1) (by rw [hbiv, hsl]; omega)
+      rw [hbown, getD_eraseIdx, hbiv] at this
+      have hsd : D - 1 - si = di := by omega
+      rw [hsd, if_neg (by omega)] at this
+      have e : p - 1 + 1 = p := by omega
+      rw [e] at this
+      exact this
+
 /-- `_refine_buckets`, given `_harvest_node` one level down -/
-theorem refine_of_node (E : Env α) (c : FCtx α) (hlt : 0 ≤ c.ap.supp.lt) (fuel : Nat) (hN : NodeStmt E c fuel) :
-    RefineStmt E c (fuel + 1) := by
-  intro n count s ids s' hsh hG hc h
+theorem refine_of_node (E : Env α) (c : FCtx α) (hlt : 0 ≤ c.ap.supp.lt) (root : Node α) (fuel : Nat)
+    (hN : NodeStmt E c root fuel) : RefineStmt E c root (fuel + 1) := by
+  intro n count s ids s' hsh hreach hrel hG hc h
   rw [refineBuckets] at h
   obtain ⟨subIds, s1, h1, h2⟩ := StateT_bind_ok _ _ _ _ _ h
   clear h
+  obtain ⟨hlS, hlA, hlSub⟩ := hsh.lens
+  have hdims : n.dims = n.data.comb.length := rfl
   -- collecting the sub-buckets: allocations and harvests of lower-dimensional nodes
-  obtain ⟨hG1, hE1, _⟩ := mapM_inv _ GInv (Ext n.data.comb.length) (fun _ _ _ => True) (Ext.refl _)
-    (fun _ _ _ => Ext.trans) (fun _ _ _ _ _ _ => trivial) _ (by
+  obtain ⟨hG1, hE1, hF⟩ := mapM_inv _ (GInv E c root) (Ext n.data.comb.length)
+    (fun (pr : Option (Node α) × List Nat) (y : List Nat) (st : HState α) =>
+      ∀ id ∈ y, id < st.cells.size ∧ (st.cells[id]!).owner.1 = pr.2.map (fun i => n.data.comb.getD i 0))
+    (Ext.refl _) (fun _ _ _ => Ext.trans)
+    (fun _ _ _ _ hq hr id hid => ⟨lt_of_lt_of_le (hq id hid).1 hr.1, by rw [(hr.2 id (hq id hid).1).2.1]; exact (hq id hid).2⟩)
+    _ (by
       intro b hb s0 y s0' hG0 hr
       obtain ⟨sub, comb⟩ := b
+      have hcomb : comb ∈ genCombinations (n.dims - 1) n.dims := (List.of_mem_zip hb).2
       simp only at hr
       split_ifs at hr with hsing
       · obtain ⟨cnt, s2, h3, hr⟩ := StateT_bind_ok _ _ _ _ _ hr
@@ -374,36 +733,76 @@ theorem refine_of_node (E : Env α) (c : FCtx α) (hlt : 0 ≤ c.ap.supp.lt) (fu
         obtain ⟨rfl, rfl⟩ := h4
         obtain ⟨rfl, rfl⟩ := StateT_pure_ok _ _ _ _ hr
         have hc0 : 0 ≤ cnt := le_trans hlt (noisyCount_ge E c n cnt hN')
-        exact ⟨push_ginv _ _ hc0 hG0, push_ext _ _ _, trivial⟩
+        have hok : CellOK E c root (comb.map (fun i => n.data.actual.getD i default))
+            (comb.map (fun i => n.data.comb.getD i 0), n.data.path) := by
+          refine ⟨by simp, fun pos hpos => ?_⟩
+          simp only [List.length_map] at hpos
+          have hj : comb.getD pos 0 < n.data.comb.length := by
+            have : comb.getD pos 0 ∈ comb := by
+              rw [List.getD_eq_getElem?_getD, List.getElem?_eq_getElem hpos]; simp
+            exact genCombinations_mem_lt _ _ comb hcomb _ this
+          have hs1 : (n.data.actual.getD (comb.getD pos 0) default).isSing = true := by
+            rw [List.all_eq_true] at hsing
+            apply hsing
+            rw [List.mem_map]
+            exact ⟨comb.getD pos 0, by rw [List.getD_eq_getElem?_getD, List.getElem?_eq_getElem hpos]; simp, rfl⟩
+          refine ⟨n, comb.getD pos 0, hreach, hrel, by rw [bucketIntervals_length hsh]; exact hj, hj, ?_, ?_⟩
+          · rw [bucketIntervals_getD hsh _ hj, if_pos hs1]
+            simp [List.getD_eq_getElem?_getD, hpos]
+          · simp [List.getD_eq_getElem?_getD, hpos]
+        refine ⟨push_ginv E c root _ _ hc0 hok hG0, push_ext _ _ _, ?_⟩
+        intro id hid
+        rw [List.mem_singleton.mp hid]
+        simp [getElem!_push_size]
       · cases sub with
         | none =>
           obtain ⟨rfl, rfl⟩ := StateT_pure_ok _ _ _ _ hr
-          exact ⟨hG0, Ext.refl _ _, trivial⟩
+          exact ⟨hG0, Ext.refl _ _, fun id hid => by simp at hid⟩
         | some sn =>
           have hm : some sn ∈ n.subnodes := (List.of_mem_zip hb).1
           obtain ⟨hsh', hlen⟩ := hsh.subnode hm
-          obtain ⟨⟨e1, e2, _⟩, _⟩ := hN sn s0 y s0' hsh' hG0 hr
-          exact ⟨e2, e1.mono hlen, trivial⟩) s subIds s1 hG h1
+          obtain ⟨⟨e1, e2, e3⟩, _⟩ := hN sn s0 y s0' hsh' (Reach.sub n sn hreach hm) hG0 hr
+          refine ⟨e2, e1.mono hlen, ?_⟩
+          -- the owner columns of the sub-node's cells are the columns of this combination
+          obtain ⟨k, hk, hkget⟩ := List.mem_iff_getElem.mp hb
+          have hz : (List.zip n.subnodes (genCombinations (n.dims - 1) n.dims))[k]? = some (some sn, comb) := by
+            rw [List.getElem?_eq_getElem hk, hkget]
+          rw [List.getElem?_zip_eq_some] at hz
+          have h2' : 2 ≤ n.data.comb.length := by
+            by_contra hlt2
+            rw [hdims, genCombinations_small _ (by omega)] at hcomb
+            simp at hcomb
+          have hsc : SubsC n.data.comb n.data.snapped n.subnodes := by
+            cases hsh with
+            | leaf _ _ _ _ hC _ => exact hC
+            | branch _ _ _ _ hC _ _ _ _ => exact hC
+          obtain ⟨hkl, hcs, _⟩ := hsc k sn hz.1
+          have := subcols_eq n.data.comb k h2' hkl comb (by rw [← hdims]; exact hz.2)
+          intro id hid
+          exact ⟨(e3.2 id hid).1, by rw [(e3.2 id hid).2.1]; simp only [nodeKey]; rw [hcs, this]⟩) s subIds s1 hG h1
+  have hokn : CellOK E c root n.bucketIntervals (nodeKey n) := CellOK.self E c root n hreach hrel (bucketIntervals_length hsh)
   have finish : ∀ (ids : List Nat) (s' : HState α),
-      (Ext n.data.comb.length s1 s' ∧ GInv s' ∧ GoodIds (nodeKey n) s' ids ∧ (∀ id ∈ ids, s1.cells.size ≤ id) ∧
-        sumCounts s'.cells ids = count) → RefineSpec n count s ids s' := by
+      (Ext n.data.comb.length s1 s' ∧ GInv E c root s' ∧ GoodIds (nodeKey n) s' ids ∧ (∀ id ∈ ids, s1.cells.size ≤ id) ∧
+        sumCounts s'.cells ids = count) → RefineSpec E c root n count s ids s' := by
     intro ids s' ⟨e1, e2, e3, e4, e5⟩
     exact ⟨hE1.trans e1, e2, e3, fun id hid => le_trans hE1.1 (e4 id hid), e5⟩
   by_cases ha : subIds.any List.isEmpty = true
   · simp only [ha, if_true] at h2
-    exact finish _ _ (fallback_spec n count hc s1 ids s' hG1 h2)
+    exact finish _ _ (fallback_spec E c root n count hc hokn s1 ids s' hG1 h2)
   · simp only [ha, Bool.false_eq_true, if_false] at h2
     obtain ⟨subb, s2, h3, h5⟩ := StateT_bind_ok _ _ _ _ _ h2
     clear h2
+    have hsubb := mapM_mapM_cell_val _ _ _ _ h3
     have := mapM_mapM_cell_state _ _ _ _ h3
     subst this
     obtain ⟨sm0, s3, h4, h6⟩ := StateT_bind_ok _ _ _ _ _ h5
     clear h5
     obtain ⟨_, rfl⟩ := liftEx_run _ _ _ _ h4
     split_ifs at h6 with hb
-    · exact finish _ _ (fallback_spec n count hc _ ids s' hG1 h6)
-    · exact finish _ _ (matchSub_spec _ _ count hc _ _ _ ids s' hG1 h6)
-
+    · exact finish _ _ (fallback_spec E c root n count hc hokn _ ids s' hG1 h6)
+    · refine finish _ _ (matchSub_spec E c root _ _ count hc _ _ ?_ _ ids s' hG1 h6)
+      intro mc sivs div hs hd
+      exact matchCell_ok E c root n hsh _ hG1 subIds hF subb hsubb _ mc sivs div hs hd
 
 theorem getElem!_modify (cells : Array (BCell α)) (i j : Nat) (f : BCell α → BCell α) (hj : j < cells.size) :
     (cells.modify i f)[j]! = if i = j then f cells[j]! else cells[j]! := by
@@ -533,9 +932,12 @@ theorem get_run (s : HState α) : (get : HM α (HState α)).run s = .ok (s, s) :
 theorem modify_run (f : HState α → HState α) (s : HState α) : (modify f : HM α Unit).run s = .ok ((), f s) := rfl
 
 /-- `_harvest_branch`, given `_harvest_node` and `_refine_buckets` one level down -/
-theorem branch_of_node (E : Env α) (c : FCtx α) (hlt : 0 ≤ c.ap.supp.lt) (fuel : Nat) (hN : NodeStmt E c fuel)
-    (hR : RefineStmt E c fuel) : BranchStmt E c (fuel + 1) := by
-  intro d subs ch s ids s' hsh hG h
+theorem branch_of_node (E : Env α) (c : FCtx α) (hlt : 0 ≤ c.ap.supp.lt) (root : Node α) (fuel : Nat)
+    (hN : NodeStmt E c root fuel) (hR : RefineStmt E c root fuel) : BranchStmt E c root (fuel + 1) := by
+  intro d subs ch s ids s' hsh hreach hG h
+  have hrel : Releasable E c (.branch d subs ch) := fun hl => by simp [Node.isLeaf] at hl
+  have hokn : CellOK E c root (Node.branch d subs ch).bucketIntervals (nodeKey (.branch d subs ch)) :=
+    CellOK.self E c root _ hreach hrel (bucketIntervals_length hsh)
   rw [harvestBranch] at h
   obtain ⟨idss, s1, h1, h2⟩ := StateT_bind_ok _ _ _ _ _ h
   clear h
@@ -543,10 +945,10 @@ theorem branch_of_node (E : Env α) (c : FCtx α) (hlt : 0 ≤ c.ap.supp.lt) (fu
     cases hsh with
     | branch _ _ _ _ _ _ _ hc hs => exact fun p hp => ⟨hs p hp, by rw [(hc p hp).1]⟩
   -- the children
-  obtain ⟨hG1, hE1, hF⟩ := mapM_inv _ GInv (Ext (d.comb.length + 1)) (fun (p : Nat × Node α) (y : List Nat) (s : HState α) => GoodIds (nodeKey p.2) s y) (Ext.refl _)
+  obtain ⟨hG1, hE1, hF⟩ := mapM_inv _ (GInv E c root) (Ext (d.comb.length + 1)) (fun (p : Nat × Node α) (y : List Nat) (s : HState α) => GoodIds (nodeKey p.2) s y) (Ext.refl _)
     (fun _ _ _ => Ext.trans) (fun _ _ _ _ hq hr => GoodIds.mono (L := d.comb.length + 1) hq hr) ch (by
       intro p hp s0 y s0' hG0 hr
-      obtain ⟨⟨e1, e2, e3⟩, _⟩ := hN p.2 s0 y s0' (hchild p hp).1 hG0 hr
+      obtain ⟨⟨e1, e2, e3⟩, _⟩ := hN p.2 s0 y s0' (hchild p hp).1 (Reach.child d subs ch p hreach hp) hG0 hr
       rw [(hchild p hp).2] at e1
       exact ⟨e2, e1, e3⟩) s idss s1 hG h1
   have hgood := flatten_good d subs ch s1 idss hsh hF
@@ -573,13 +975,13 @@ theorem branch_of_node (E : Env α) (c : FCtx α) (hlt : 0 ≤ c.ap.supp.lt) (fu
       simp only [Except.ok.injEq, Prod.mk.injEq] at h7
       obtain ⟨rfl, rfl⟩ := h7
       obtain ⟨rfl, rfl⟩ := StateT_pure_ok _ _ _ _ h8
-      obtain ⟨e1, e2, e3, e4⟩ := single_cell_spec (d.comb.length + 1) (nodeKey (.branch d subs ch)) s1
-        (Node.branch d subs ch).bucketIntervals N hN0 hG1
+      obtain ⟨e1, e2, e3, e4⟩ := single_cell_spec E c root (d.comb.length + 1) (nodeKey (.branch d subs ch)) s1
+        (Node.branch d subs ch).bucketIntervals N hN0 hokn hG1
       exact ⟨⟨hE1.trans e1, e2, e3⟩, Or.inr ⟨N, hNc, Or.inl e4⟩⟩
     · rw [if_neg h1d] at h6
       obtain ⟨rids, s3, h7, h8⟩ := StateT_bind_ok _ _ _ _ _ h6
       obtain ⟨rfl, rfl⟩ := StateT_pure_ok _ _ _ _ h8
-      obtain ⟨e1, e2, e3, e4, e5⟩ := hR (.branch d subs ch) (N - sumCounts s1.cells ids0) s1 rids s3 hsh hG1
+      obtain ⟨e1, e2, e3, e4, e5⟩ := hR (.branch d subs ch) (N - sumCounts s1.cells ids0) s1 rids s3 hsh hreach hrel hG1
         (by omega) h7
       have hgood3 := hgood.mono e1
       refine ⟨⟨hE1.trans (e1.mono (Nat.le_succ _)), e2, ⟨?_, ?_⟩⟩, Or.inr ⟨N, hNc, Or.inl ?_⟩⟩
@@ -657,7 +1059,7 @@ theorem branch_of_node (E : Env α) (c : FCtx α) (hlt : 0 ≤ c.ap.supp.lt) (fu
           have := b3 _ hm
           simp only at this
           rw [List.getElem_map, this]
-      refine ⟨⟨hE1.trans hext, ⟨?_, ?_⟩, hgood.mono hext⟩, Or.inr ⟨N, hNc, ?_⟩⟩
+      refine ⟨⟨hE1.trans hext, ⟨?_, ?_, ?_⟩, hgood.mono hext⟩, Or.inr ⟨N, hNc, ?_⟩⟩
       · intro id hid
         simp only [b1] at hid
         by_cases hin : id ∈ ids0
@@ -673,16 +1075,22 @@ theorem branch_of_node (E : Env α) (c : FCtx α) (hlt : 0 ≤ c.ap.supp.lt) (fu
           rw [b2 id hid (by rw [hzipfst]; exact hin)]
           exact hG1.1 id hid
       · intro p hp
-        exact (hG1.2 p hp).mono hext
+        exact (hG1.2.1 p hp).mono hext
+      · intro id hid
+        simp only [b1] at hid
+        have := hext.2 id hid
+        simp only at this
+        rw [this.1, this.2.1]
+        exact hG1.2.2 id hid
       · simp only
         rw [hsum]
         exact a3
 
 
 /-- `_harvest_node` (cache look-up, then leaf or branch), given the two one level down -/
-theorem node_of_leaf_branch (E : Env α) (c : FCtx α) (fuel : Nat) (hL : LeafStmt E c fuel) (hB : BranchStmt E c fuel) :
-    NodeStmt E c (fuel + 1) := by
-  intro n s ids s' hsh hG h
+theorem node_of_leaf_branch (E : Env α) (c : FCtx α) (root : Node α) (fuel : Nat) (hL : LeafStmt E c root fuel)
+    (hB : BranchStmt E c root fuel) : NodeStmt E c root (fuel + 1) := by
+  intro n s ids s' hsh hreach hG h
   rw [harvestNode] at h
   obtain ⟨sg, s0, h1, h2⟩ := StateT_bind_ok _ _ _ _ _ h
   clear h
@@ -695,14 +1103,14 @@ theorem node_of_leaf_branch (E : Env α) (c : FCtx α) (fuel : Nat) (hL : LeafSt
     obtain ⟨rfl, rfl⟩ := StateT_pure_ok _ _ _ _ h2
     have hm := List.mem_of_find?_eq_some hf
     have hk : hit.1 = nodeKey n := by simpa using List.find?_some hf
-    have := hG.2 hit hm
+    have := hG.2.1 hit hm
     rw [hk] at this
     exact ⟨⟨Ext.refl _ _, hG, this⟩, fun hnone => by simp at hnone⟩
   | none =>
     rw [hf] at h2
-    have finish : ∀ (ids1 : List Nat) (s1 : HState α), Spec n s ids1 s1 ∧ Cons E c n ids1 s1 →
+    have finish : ∀ (ids1 : List Nat) (s1 : HState α), Spec E c root n s ids1 s1 ∧ Cons E c n ids1 s1 →
         (do modify (fun (s : HState α) => { s with cache := (nodeKey n, ids1) :: s.cache }); pure ids1 : HM α (List Nat)).run s1
-          = .ok (ids, s') → Spec n s ids s' ∧ (none = (none : Option (NodeKey × List Nat)) → Cons E c n ids s') := by
+          = .ok (ids, s') → Spec E c root n s ids s' ∧ (none = (none : Option (NodeKey × List Nat)) → Cons E c n ids s') := by
       intro ids1 s1 ⟨⟨e1, e2, e3⟩, hcons⟩ hr
       obtain ⟨u, s2, h5, h6⟩ := StateT_bind_ok _ _ _ _ _ hr
       rw [modify_run] at h5
@@ -711,38 +1119,39 @@ theorem node_of_leaf_branch (E : Env α) (c : FCtx α) (fuel : Nat) (hL : LeafSt
       obtain ⟨rfl, rfl⟩ := StateT_pure_ok _ _ _ _ h6
       have hext : Ext (n.data.comb.length + 1) s1 { s1 with cache := (nodeKey n, ids1) :: s1.cache } :=
         ⟨le_refl _, fun _ _ => ⟨rfl, rfl, fun _ => rfl⟩⟩
-      refine ⟨⟨e1.trans hext, ⟨e2.1, ?_⟩, e3.mono hext⟩, fun _ => hcons⟩
+      refine ⟨⟨e1.trans hext, ⟨e2.1, ?_, e2.2.2⟩, e3.mono hext⟩, fun _ => hcons⟩
       intro p hp
       rcases List.mem_cons.mp hp with rfl | hp
       · exact e3.mono hext
-      · exact (e2.2 p hp).mono hext
+      · exact (e2.2.1 p hp).mono hext
     cases n with
     | leaf d subs rows =>
       simp only at h2
       obtain ⟨ids1, s1, h3, h4⟩ := StateT_bind_ok _ _ _ _ _ h2
-      exact finish ids1 s1 (hL _ s ids1 s1 hsh hG h3) h4
+      exact finish ids1 s1 (hL _ s ids1 s1 hsh hreach hG h3) h4
     | branch d subs ch =>
       simp only at h2
       obtain ⟨ids1, s1, h3, h4⟩ := StateT_bind_ok _ _ _ _ _ h2
-      exact finish ids1 s1 (hB d subs ch s ids1 s1 hsh hG h3) h4
+      exact finish ids1 s1 (hB d subs ch s ids1 s1 hsh hreach hG h3) h4
 
 /-- all four statements, for every recursion budget -/
-theorem harvest_all (E : Env α) (c : FCtx α) (hlt : 0 ≤ c.ap.supp.lt) :
-    ∀ fuel, NodeStmt E c fuel ∧ RefineStmt E c fuel ∧ BranchStmt E c fuel ∧ LeafStmt E c fuel := by
+theorem harvest_all (E : Env α) (c : FCtx α) (hlt : 0 ≤ c.ap.supp.lt) (root : Node α) :
+    ∀ fuel, NodeStmt E c root fuel ∧ RefineStmt E c root fuel ∧ BranchStmt E c root fuel ∧ LeafStmt E c root fuel := by
   intro fuel
   induction fuel with
   | zero =>
-    have hR : RefineStmt E c 0 := by
-      intro n count s ids s' _ _ _ h
+    have hR : RefineStmt E c root 0 := by
+      intro n count s ids s' _ _ _ _ _ h
       simp [refineBuckets, throw, throwThe, MonadExceptOf.throw, StateT.lift, StateT.run, bind, Except.bind] at h
-    refine ⟨?_, hR, ?_, leaf_of_refine E c hlt 0 hR⟩
-    · intro n s ids s' _ _ h
+    refine ⟨?_, hR, ?_, leaf_of_refine E c hlt root 0 hR⟩
+    · intro n s ids s' _ _ _ h
       simp [harvestNode, throw, throwThe, MonadExceptOf.throw, StateT.lift, StateT.run, bind, Except.bind] at h
-    · intro d subs ch s ids s' _ _ h
+    · intro d subs ch s ids s' _ _ _ h
       simp [harvestBranch, throw, throwThe, MonadExceptOf.throw, StateT.lift, StateT.run, bind, Except.bind] at h
   | succ fuel ih =>
     obtain ⟨hN, hR, hB, hL⟩ := ih
-    have hR' := refine_of_node E c hlt fuel hN
-    exact ⟨node_of_leaf_branch E c fuel hL hB, hR', branch_of_node E c hlt fuel hN hR, leaf_of_refine E c hlt (fuel + 1) hR'⟩
+    have hR' := refine_of_node E c hlt root fuel hN
+    exact ⟨node_of_leaf_branch E c root fuel hL hB, hR', branch_of_node E c hlt root fuel hN hR,
+      leaf_of_refine E c hlt root (fuel + 1) hR'⟩
 
 end
